@@ -1015,6 +1015,24 @@ def mon_terminal_once(tr, pid='C07', require_done=False):
     return out
 
 
+def mon_subscribers_terminated(tr, pid, side):
+    """After the connection of `side` has ended (lost or closed) every subscriber of that endpoint that was subscribed and
+    has not cancelled itself has received its terminal signal ('at most one' is judged elsewhere; this is 'not zero')."""
+    out = []
+    per = {}
+    for e in tr.world.log:
+        if e['side'] == side and e['ev'] in ('on_subscribe', 'on_next', 'on_complete', 'on_error', 'sub_cancel'):
+            per.setdefault((e['uid'], e['dir']), []).append(e)
+    for (uid, dirn), evs in per.items():
+        if not any(x['ev'] == 'on_subscribe' for x in evs) or any(x['ev'] == 'sub_cancel' for x in evs):
+            continue
+        if not any(x['ev'] in ('on_complete', 'on_error') or (x['ev'] == 'on_next' and x.get('complete')) for x in evs):
+            k = tr.scn.st[uid]['spec']['k']
+            out.append(viol('subscriber_left_without_terminal_signal', '%s:no_terminal:%s:%s' % (pid, k, dirn), side=side, uid=uid,
+                            dir=dirn, signals=[x['ev'] for x in evs][:10]))
+    return out
+
+
 # ------------------------------------------------------------------------------------------------ C11
 
 def scripted_error(spec):
@@ -1059,6 +1077,9 @@ def mon_connection_loss(tr, pid='C11', affected=('c', 's'), settled_mark='settle
         req_side = spec['side']
         resp_side = OTHER[req_side]
         facts = dict(uid=uid, k=k, fault=fkind)
+        # (a scripted peer may have failed the interaction itself just before the connection ended: that error, decoded from
+        # bytes that arrived before the cut, is the outcome then)
+        peer_failed = any(e['ev'] == 'hand_end' and e.get('how') == 'error' and e.get('raw') and e['seq'] < fseq for e in evs)
         if req_side in affected:
             if k == 'rr':
                 outcome = [e for e in evs if e['ev'] in ('rr_result', 'rr_error', 'rr_cancelled')]
@@ -1068,7 +1089,7 @@ def mon_connection_loss(tr, pid='C11', affected=('c', 's'), settled_mark='settle
                 elif outcome[0]['seq'] > fseq and outcome[0]['ev'] == 'rr_result':
                     # a response can still be decoded from bytes that arrived before the cut; that is fine
                     pass
-                elif outcome[0]['seq'] > fseq and outcome[0]['ev'] == 'rr_error' and not scripted_error(spec):
+                elif outcome[0]['seq'] > fseq and outcome[0]['ev'] == 'rr_error' and not scripted_error(spec) and not peer_failed:
                     # "failed with a connection error": the application has to be able to tell it from a cancellation
                     # or an application error
                     if outcome[0].get('exc_type') == 'RSocketProtocolError' and 'CONNECTION_' not in outcome[0].get('exc', ''):
@@ -1086,7 +1107,7 @@ def mon_connection_loss(tr, pid='C11', affected=('c', 's'), settled_mark='settle
                         out.append(viol('subscriber_left_hanging', '%s:hanging:%s' % (pid, k), **facts))
                     elif len(term_after) > 1:
                         out.append(viol('subscriber_failed_twice', '%s:failed_twice:%s' % (pid, k), **facts))
-                    elif term_after and term_after[0]['ev'] == 'on_error' and not scripted_error(spec) and \
+                    elif term_after and term_after[0]['ev'] == 'on_error' and not scripted_error(spec) and not peer_failed and \
                             term_after[0].get('exc_type') == 'RSocketProtocolError' and 'CONNECTION_' not in term_after[0].get('exc', ''):
                         out.append(viol('pending_request_failed_with_wrong_error', '%s:wrong_error:%s' % (pid, k),
                                         exc=term_after[0].get('exc', '')[:80], **facts))
